@@ -151,6 +151,18 @@ def unit(u, res):
         st.notes.append((tag, r))
         return r
     ex.overrides.append((all_eval, stub))
+    built_tree = C.node(C.operator('RootNode'), [C.node(C.operator('Const', C.v_int(424242)))])
+    build_err = Adt('EvalexprError', C.VI('EvalexprError', 'CustomMessage'), [sstr('stub build error')])
+
+    def build_stub(ex_, st, c, args):
+        # a string-level entry point may also precompile the string itself and delegate to the tree-level evaluator: precompilation is a havoc
+        # stub as well (Ok(marker tree) | Err(marker error))
+        tag = ex_.branch(st, [(z3.Bool('build_ok'), 'BUILT'), (z3.Not(z3.Bool('build_ok')), 'BUILDERR')])
+        st.log.append(('build', args[0], None, False))
+        st.notes.append((tag, None))
+        return ok(copy_value(built_tree)) if tag == 'BUILT' else err(copy_value(build_err))
+    if level == 'string':
+        ex.overrides.append((re.compile(r'(interface::)?build_operator_tree'), build_stub))
     subject = sstr('<any expression>') if level == 'string' else C.node(C.operator('RootNode'), [C.node(C.operator('Const', C.v_int(5)))])
     ctxv = C.hashmap_context(variables=[('k', C.v_int(z3.BitVec('ctx_k', 64)))], disabled=z3.Bool('ctx_dis'))
 
@@ -173,22 +185,42 @@ def unit(u, res):
         res.nontrivial_paths += 1
         why = None
         claim = z3.BoolVal(True)
+        evlog = [e for e in o.log if e[0] != 'build']
+        blog = [e for e in o.log if e[0] == 'build']
+        evnotes = [n for n in o.state.notes if n[0] not in ('BUILT', 'BUILDERR')]
+        bnotes = [n for n in o.state.notes if n[0] in ('BUILT', 'BUILDERR')]
+        via_build = bool(blog)
+        want_stub = stub_name if not via_build else 'Node::' + stub_name
         if o.kind != 'return':
             why = 'panic: %s' % o.value
-        elif len(o.log) != 1:
-            why = 'evaluator called %d times' % len(o.log)
+        elif via_build and (len(blog) != 1 or o.log[0][0] != 'build' or not (isinstance(blog[0][1], Ref) and blog[0][1].cell.id == holder['s'].cell.id)):
+            why = 'the string is precompiled %d times / not first / another string is precompiled' % len(blog)
+        elif via_build and bnotes[0][0] == 'BUILDERR':
+            if evlog:
+                why = 'evaluates although precompilation failed'
+            else:
+                claim = equal_term(o.value, err(build_err))
+                verdict, model = pr.prove('%s path (build error)' % name, o.pc, claim)
+                if verdict == 'sat':
+                    res.sat.append(dict(key='entry-point %s' % name, entry=name, level=level, form=form, typ=typ, stub_outcome='ERR', stub_value=None,
+                                        why='a precompilation error is not returned unchanged', witness='%s: precompilation error not returned unchanged' % name))
+                continue
+        elif len(evlog) != 1:
+            why = 'evaluator called %d times' % len(evlog)
         else:
-            cname, a0, a1, fresh = o.log[0]
-            if cname != stub_name:
-                why = 'delegates to %s, expected %s' % (cname, stub_name)
-            elif not (isinstance(a0, Ref) and a0.cell.id == holder['s'].cell.id):
+            cname, a0, a1, fresh = evlog[0]
+            if cname != want_stub:
+                why = 'delegates to %s, expected %s' % (cname, want_stub)
+            elif via_build and not identical(ex.deref_all(a0), built_tree):
+                why = 'evaluator called on a tree that is not the precompiled one'
+            elif not via_build and not (isinstance(a0, Ref) and a0.cell.id == holder['s'].cell.id):
                 why = 'evaluator called on a different string/tree'
             elif form == 'nocontext' and not fresh:
                 why = 'context-free form does not evaluate in a fresh default HashMapContext'
             elif form != 'nocontext' and not (isinstance(a1, Ref) and a1.cell.id == holder['c'].cell.id):
                 why = 'evaluator called with a different context'
             else:
-                tag, r = o.state.notes[0]
+                tag, r = evnotes[0]
                 want = r if tag == 'ERR' else project(C, typ, tag, r.fields[0])
                 claim = equal_term(o.value, want)
                 # state that outlives the call (thread-locals): inductive invariant "holds a fresh default context" — assumed at entry (lazy
@@ -206,18 +238,18 @@ def unit(u, res):
         div = [[z3.BitVec('hv_i', 64) == z3.BitVecVal(x, 64)] for x in INT_POOL] + [[z3.FP('hv_f', F64) == models.fp_from_py(x)] for x in FLOAT_POOL[:8]]
         verdict, model = pr.prove('%s path' % name, o.pc, claim, diversify=div)
         for mdl in ([model] + list(pr.extra_models)) if verdict == 'sat' else []:
-            tag = o.state.notes[0][0] if o.state.notes else '?'
+            tag = evnotes[0][0] if evnotes else '?'
             stub_val = None
-            if o.state.notes and tag != 'ERR':
+            if evnotes and tag != 'ERR':
                 try:
-                    stub_val = render_value(C.meta, o.state.notes[0][1].fields[0], mdl)
+                    stub_val = render_value(C.meta, evnotes[0][1].fields[0], mdl)
                 except Exception:
                     stub_val = None
             res.sat.append(dict(key='entry-point %s' % name, entry=name, level=level, form=form, typ=typ, stub_outcome=tag, stub_value=stub_val,
                                 why=why or 'result is not the projection of the evaluator\'s result',
                                 witness='%s with evaluator outcome %s: %s' % (name, tag, why or 'wrong projection')))
     if len(res.samples) < 1 and outs:
-        res.samples.append(dict(entry=name, paths=len(outs), delegate=stub_name, outcomes=[n[0] for o in outs for n in o.state.notes[:1]]))
+        res.samples.append(dict(entry=name, paths=len(outs), delegate=stub_name, outcomes=[n[0] for o in outs for n in o.state.notes[:2]]))
 
 
 def unit_compose(u, res):
